@@ -18,7 +18,7 @@ from . import c05
 PROPERTY_ID = "C11"
 LEVEL = "exploration"
 RULE = (
-    "2-4 participants (forked processes sharing one cache directory) each run a generated workload over two cached "
+    "2-4 participants (forked processes, or threads of one process sharing the Memory object and its wrappers) each run a generated workload over two cached "
     "functions: calls with arguments from a small set (collisions are the norm), reduce_size(items_limit 0|1), "
     "reduce_size(bytes_limit), Memory.clear(), f.clear().  Every libc file-system call under the cache directory (reads "
     "included: stat, access, open, opendir; and every create/write/rename/mkdir/unlink/rmdir) is intercepted by the LD_PRELOAD "
@@ -32,7 +32,7 @@ RULE = (
     "schedule)."
 )
 ASSUMPTIONS = [
-    "participants are processes (threads of one process are not scheduled in this version)",
+    "participants are processes or threads of one process (a parked thread waits inside a libc call, i.e. without the GIL)",
     "Memory objects and wrappers are created before the scheduled section (decoration time)",
     "interleavings are sampled with bounded pre-emptions, not enumerated; a single libc call is atomic",
 ]
@@ -60,6 +60,7 @@ def strategy():
         "warm": st.lists(st.tuples(st.integers(0, 1), arg).map(list), max_size=3),
         "preempt": st.lists(st.tuples(st.integers(0, 12) | st.integers(0, 40), st.integers(0, 3)).map(list), max_size=6),
         "compress": st.sampled_from([False, False, True]),
+        "kind": st.sampled_from(["processes", "processes", "threads"]),
     })
 
 
@@ -71,17 +72,57 @@ def _participant(i, spec, location, moddir, reqw, grantr, respath):
     warnings.simplefilter("ignore")
     import logging
     logging.disable(logging.CRITICAL)
-    import traceback
 
     import joblib
 
     mod = c05._load_module_noreload(moddir)
     mem = joblib.Memory(location, compress=spec["compress"], verbose=0)
     wrapped = [mem.cache(mod.wf0), mem.cache(mod.wf1)]
-    results = []
     fsgate.arm(location, fsgate.TURN, reqfd=reqw, grantfd=grantr, ident=i)
     try:
-        for op in spec["participants"][i]:
+        results = _ops(spec["participants"][i], mem, wrapped)
+    finally:
+        fsgate.disarm()
+    with open(respath, "w") as f:
+        json.dump(results, f)
+
+
+def _threads_host(spec, location, moddir, reqw, grant_r, alive_w, top):
+    """All participants are threads of this one process and share the Memory object and the wrappers."""
+    import threading
+    warnings.simplefilter("ignore")
+    import logging
+    logging.disable(logging.CRITICAL)
+
+    import joblib
+
+    mod = c05._load_module_noreload(moddir)
+    mem = joblib.Memory(location, compress=spec["compress"], verbose=0)
+    wrapped = [mem.cache(mod.wf0), mem.cache(mod.wf1)]
+    fsgate.arm(location, fsgate.TURN, reqfd=reqw, grantfd=-1, ident=99)   # threads that are not participants run free
+
+    def body(i):
+        fsgate.thread_participant(i, grant_r[i])
+        try:
+            res = _ops(spec["participants"][i], mem, wrapped)
+            with open(os.path.join(top, "res%d.json" % i), "w") as f:
+                json.dump(res, f)
+        finally:
+            fsgate.thread_participant(-1, -1)
+            os.close(alive_w[i])      # tells the controller that this participant is gone
+    ths = [threading.Thread(target=body, args=(i,)) for i in range(len(spec["participants"]))]
+    for t in ths:
+        t.start()
+    for t in ths:
+        t.join()
+    fsgate.disarm()
+
+
+def _ops(ops, mem, wrapped):
+    import traceback
+    results = []
+    if True:
+        for op in ops:
             k = op[0]
             try:
                 if k == "call":
@@ -104,10 +145,7 @@ def _participant(i, spec, location, moddir, reqw, grantr, respath):
                 tb = traceback.extract_tb(e.__traceback__)
                 where = ["%s:%d %s" % (os.path.basename(fr.filename), fr.lineno, fr.name) for fr in tb if "/repo/joblib" in fr.filename][-3:]
                 results.append({"op": op, "ok": False, "raised": "%s: %s" % (type(e).__name__, str(e)[:200]), "where": where})
-    finally:
-        fsgate.disarm()
-    with open(respath, "w") as f:
-        json.dump(results, f)
+    return results
 
 
 def run_case(spec):
@@ -138,7 +176,24 @@ def run_case(spec):
     sys.stdout.flush()
     sys.stderr.flush()
     try:
-        for i in range(n):
+        if spec.get("kind") == "threads":
+            pid = os.fork()
+            if pid == 0:
+                rc = 0
+                try:
+                    os.close(reqr)
+                    for j in range(n):
+                        os.close(grants[j][1])
+                        os.close(alive[j][0])
+                    _threads_host(spec, location, moddir, reqw, [g[0] for g in grants], [a[1] for a in alive], top)
+                except BaseException:
+                    import traceback
+                    traceback.print_exc()
+                    rc = 3
+                finally:
+                    os._exit(rc)
+            pids.append(pid)
+        for i in range(n if spec.get("kind") != "threads" else 0):
             pid = os.fork()
             if pid == 0:
                 rc = 0
@@ -216,7 +271,7 @@ def run_case(spec):
                                     % (os.path.relpath(p, location), val[:4] if isinstance(val, tuple) else val, sched), signature=["garbled-output"])
     finally:
         shutil.rmtree(top, ignore_errors=True)
-    classes = ["participants=%d" % n, "preemptions-effective=%d" % trace["switches"]] + sorted(set(recorded))
+    classes = ["participants=%d" % n, "kind=%s" % spec.get("kind", "processes"), "preemptions-effective=%d" % trace["switches"]] + sorted(set(recorded))
     if trace["interesting"]:
         classes.append("preempted-inside-a-call-then-foreign-mutation")
     _STATS["n_events_scheduled"] = _STATS.get("n_events_scheduled", 0) + trace["events"]
